@@ -64,12 +64,18 @@ func dropNode(n *node) {
 }
 
 func waitSleep(n *node, pid gen.PID) {
-	for i := 0; i < 200000; i++ {
+	// (a generous real-time limit: this only ever expires when something is really stuck; a short one made
+	// executions diverge on a heavily loaded machine)
+	for i := 0; i < 6000000; i++ {
 		st, err := n.ProcessState(pid)
 		if err != nil || st == gen.ProcessStateSleep {
 			return
 		}
-		rt.Sleep(5 * rt.Microsecond)
+		if i < 2000 {
+			rt.Sleep(5 * rt.Microsecond)
+		} else {
+			rt.Sleep(20 * rt.Microsecond)
+		}
 	}
 	panic("process did not go to sleep: " + pid.String())
 }
